@@ -241,7 +241,7 @@ NOT_APPLICABLE['C16'] = ('concurrency (interleavings of threads sharing a Source
 NOT_COVERED = {
     'C15': ['the sequential reading of Mutex / AtomicUsize is an assumption (R-seq); threads are C16', 'SourceView::from_string / clone (other constructors), Lines as an Iterator impl (verified as the inherent method, R-trait-inherent)', 'the unsafe lifetime extension of cached lines'],
     'C17': ['SourceMapIndex / DecodedMap::get_original_function_name wrappers (index lookup, proved in C08, then the same walk): not under contract; the bounded stand-in function_name covers SourceView:: and SourceMap::get_original_function_name', 'token columns that fall inside a surrogate pair (outside the precondition `aligned`): bounded only', 'std\'s Take / Peekable adapters (assumed contract over the walker\'s proved contract)'],
-    'C18': ['how BufReader::lines cuts bytes into lines (std; assumed -- exercised by the bounded stand-in discover incl. texts larger than any buffer)', 'to_data_url (JSON writer + base64 writer of another crate than the reader) and therefore the data URL round trip: bounded (decode_data_url itself is under contract: the payload after either preamble, base64-decoded, goes through decode_slice)', 'that the serialised form of every map parses to a document with the keys (serde layer): bounded (header, discover); the predicates themselves are under contract (u21)'],
+    'C18': ['how BufReader::lines cuts bytes into lines (std; assumed -- exercised by the bounded stand-in discover incl. texts larger than any buffer)', 'that the base64 reader (data_encoding) inverts the base64 writer (base64_simd) -- an assumption between two dependencies, exercised by the bounded stand-in discover; on it, to_data_url and decode_data_url are proved to fit together (the preamble written is one the reader accepts; lemma_own_data_url_decodes_to_the_json_text)', 'that the serialised form of every map parses to a document with the keys (serde layer): bounded (header, discover); the predicates themselves are under contract (u21)'],
     'C19': ['the std adapter chains inside make_relative_path are behind assumed contracts (split/filter/collect, sort_by_key, repeat/take/collect, join); the bounded stand-in relpath exercises the real ones', 'find_common_prefix (the rewrite "~" option): not part of C19'],
     'C20': ['scroll::Pread internals and the derive(Pread) expansion (assumed contracts; exercised by the bounded stand-in ram_bundle)', 'UnbundleRamBundle (file-system based variant)', 'split_ram_bundle / SplitRamBundleModuleIter (composition with flatten and SourceMapBuilder)', 'that Iterator::next of RamBundleModuleIter is the inherent body verified here (R-trait-inherent: same text, emitted outside the trait impl)'],
     'C10': ['inputs with an empty stretch (two tokens at one position, column u32::MAX): the exactly-one-token clause is conditional on non-empty stretches (known finding D10 lives there); bounded stand-in adjust_dups', 'positions >= 2^30 (`as i32` arithmetic): outside the precondition'],
